@@ -295,7 +295,7 @@ def rule_r1(repo, tier='quick'):
                 if sname == 'curated' and any(e[1] == 130 for e in dec):
                     rr.fail(key + ':inner-signature', fi.where, '%s: a start signature inside the body of a message is decoded as a new message' % name)
                 after = [e for e in r.events if e[0] in ('invalidate', 'add_extra_entries')]
-                if wtab and tabs == wtab and [e[0] for e in after] != ['invalidate', 'add_extra_entries'] * len(wtab):
+                if wtab and tabs == wtab and ([e[0] for e in after] != ['invalidate', 'add_extra_entries'] * len(wtab) or any(e[0] == 'invalidate' and e[1] for e in after)):
                     rr.fail(key + ':tables-registration', fi.where, '%s: after extracting table definitions the scanner performs %s (expected invalidate, then add_extra_entries)' % (
                         name, [e[0] for e in after]))
     if len(scenarios) > 1:
